@@ -17,7 +17,7 @@ def nontrivial(l):
 
 def run(ctx):
     return core.simple_check(
-        ctx, jobs,
+        ctx, jobs, distribution=core.field_distribution(("U ",), ["variant", "len", "ctors"], numeric=("len",)),
         rule="strings built from a pool of grapheme-rich pieces (combining marks, ZWJ emoji, regional indicators, Hangul jamo, CR/LF in every "
              "arrangement, C0/C1 controls): seeded random concatenations, all pairs and triples of pool pieces, every ASCII string of length <= 2 "
              "(thorough: 3); per string all six constructors, len/is_empty/chars/rev/Display, three random get and slice/slice_u32/inclusive ranges; "
